@@ -14,8 +14,8 @@ from vlib.runner import Violation, hyp_run, sut_frame, watchdog
 
 ID = 'C06'
 LEVEL = 'exploration'
-RULE = ('strings over the atoms {a b A . , blank newline} + the documented special sequences; '
-        'exhaustive up to the tier bound (all three languages en/de/ru), plus seeded random strings of 20-200 atoms, '
+RULE = ('strings over the atoms {a x A . , blank newline} + the documented special sequences; '
+        'exhaustive up to the tier bound (all three languages en/de/ru; a quarter of the runs with the no-specials option, which must not matter), plus seeded random strings of 20-200 atoms, '
         'plus Hypothesis st.text() without LaTeX-active characters for the fixed-point half; '
         'text AND position list compared with a reference transducer; '
         'non-trivial = a special sequence directly adjacent to another one or to a line break (fixed-point half: '
@@ -37,11 +37,11 @@ TABLE = {'---': '\u2014', '--': '\u2013', '``': '\u201c', "''": '\u201d',
          '~': '\xa0', '\\,': '\u202f', '\\%': '%', '\\&': '&', '\\$': '$',
          '\\#': '#', '\\_': '_', '\\{': '{', '\\}': '}', '\\\\': ' ', '&': ' '}
 BLANKING = ('~', '\\,', '&', '\\\\')
-PLAIN_ATOMS = ['a', 'b', 'A', '.', ',', ' ', '\n']
+PLAIN_ATOMS = ['a', 'x', 'A', '.', ',', ' ', '\n']
 SEQ_ATOMS = ['-', '--', '---', '`', '``', "'", "''", '~', '\\,', '\\%', '\\&',
              '\\$', '\\#', '\\_', '\\{', '\\}', '\\\\', '&']
 ATOMS = PLAIN_ATOMS + SEQ_ATOMS          # 25 atoms
-SUB = ['-', "'", '`', 'a', ' ', '\n', '~', '\\\\']
+SUB = ['-', "'", '`', 'x', ' ', '\n', '~', '\\\\']
 LANGS = ['en', 'de', 'ru']
 KEYS = sorted(TABLE, key=lambda s: -len(s))
 
@@ -108,14 +108,14 @@ def nontrivial(src):
     return False
 
 
-def check(src, lang, pack=None):
+def check(src, lang, pack=None, nosp=False):
     exp_t, exp_p = reference(src)
     try:
         with watchdog(20):
-            (plain, cmap), err = sut.tex2txt(src, lang=lang, pack=pack)
+            (plain, cmap), err = sut.tex2txt(src, lang=lang, pack=pack, nosp=nosp)
     except Exception as e:
         raise Violation('exception:' + sut_frame(e), {'src': src, 'lang': lang, 'pack': pack}, repr(e))
-    case = {'src': src, 'lang': lang, 'pack': pack}
+    case = {'src': src, 'lang': lang, 'pack': pack, 'nosp': nosp}
     if plain != exp_t:
         raise Violation('text-differs', case, {'expected': exp_t, 'actual': plain})
     if list(cmap) != exp_p:
@@ -128,7 +128,7 @@ def replay(case):
     if blank_line_with_sequence(case['src']):
         return None
     try:
-        check(case['src'], case.get('lang'), case.get('pack'))
+        check(case['src'], case.get('lang'), case.get('pack'), case.get('nosp', False))
     except Violation as v:
         return v
     return None
@@ -142,7 +142,8 @@ def run_atoms(ctx, atoms, lang, pack=None):
         if blank_line_with_sequence(src):
             return
     try:
-        check(src, lang, pack)
+        # the no-specials option only concerns \\LTadd & Co. and the skip comments: prose and the table are untouched
+        check(src, lang, pack, nosp=(len(src) + len(atoms)) % 4 == 0)
     except Violation as v:
         ctx.violation(v)
     nt = nontrivial(src)
@@ -199,7 +200,7 @@ def run_shard(ctx):
                 s = s.replace(bad, bad[0] + 'x' + bad[0])
         try:
             with watchdog(20):
-                (plain, cmap), err = sut.tex2txt(s, lang=lang)
+                (plain, cmap), err = sut.tex2txt(s, lang=lang, nosp=len(s) % 3 == 0)
         except Exception as e:
             raise Violation('exception:' + sut_frame(e), {'src': s, 'lang': lang}, repr(e))
         if plain != s or list(cmap) != list(range(1, len(s) + 1)) or err:
